@@ -484,17 +484,17 @@ def parse_spec(path):
             cur.loops[mode[1]]['decreases'] = st[len('decreases '):]
             target = None
             continue
-        if st.startswith('params ') and mode and mode[0] == 'closure':
-            cur.closures[mode[1]]['params'] = st[len('params '):]
+        if st.startswith('%params ') and mode and mode[0] == 'closure':
+            cur.closures[mode[1]]['params'] = st[len('%params '):]
             continue
-        if st.startswith('ret ') and mode != 'body':
+        if st.startswith('%ret ') and mode != 'body':
             if mode and mode[0] == 'closure':
-                cur.closures[mode[1]]['ret'] = st[4:].strip()
+                cur.closures[mode[1]]['ret'] = st[5:].strip()
             else:
-                cur.ret = st[4:].strip()
+                cur.ret = st[5:].strip()
             continue
-        if st.startswith('opt ') and mode != 'body':
-            k, _, v = st[4:].partition('=')
+        if st.startswith('%opt ') and mode != 'body':
+            k, _, v = st[5:].partition('=')
             cur.opts[k.strip()] = v.strip()
             continue
         if st == 'body':
